@@ -587,7 +587,9 @@ def trace_validation(rep, prop, owners, seed, n, twostage_frac=0.3, noise=True, 
                            "trace": json.loads(json.dumps({"scn": tr["scn"], "ev": tr["ev"]}, default=_jsonable))})
         else:
             for o in own:
-                rep.foreign_divergence(o)
+                rep.foreign_divergence(o, {"explain": explain(tr, v)[:900], "info": info, "verdict": v,
+                                           "trace": json.loads(json.dumps({"scn": tr["scn"], "ev": tr["ev"]},
+                                                                          default=_jsonable))})
     rep.notes.append("%d executions of the real simulator (real schedulers: uncontrolled / sorted / round robin / random "
                      "scripted with exceptions and JSON round trips; ideal and two-stage batteries) recorded through "
                      "the trace points and validated by TLC; %d out of scope (non-integer pilots); binding self-test: "
